@@ -28,10 +28,41 @@ theorem newAgnostic_ok (ms : List MatrixData) (size : Nat) (pr : Provider) (h : 
       cases h
       refine ⟨rfl, by simpa using h2, not_any _ _ h1⟩
 
+/-- a sorted list without equal neighbours is strictly increasing -/
+theorem strict_of_not_adjacentEqual (S : List MatrixData) (hs : S.Pairwise (fun a b => a.key ≤ b.key))
+    (h : adjacentEqual (S.map MatrixData.key) = false) : S.Pairwise (fun a b => a.key < b.key) := by
+  induction S with
+  | nil => exact List.Pairwise.nil
+  | cons x S ih =>
+    rw [List.pairwise_cons] at hs ⊢
+    cases S with
+    | nil => exact ⟨by simp, List.Pairwise.nil⟩
+    | cons y S' =>
+      simp only [List.map_cons, adjacentEqual, Bool.or_eq_false_iff, beq_eq_false_iff_ne, ne_eq] at h
+      have ihs := ih hs.2 h.2
+      refine ⟨?_, ihs⟩
+      intro z hz
+      have hxy : x.key < y.key := by
+        have := hs.1 y List.mem_cons_self
+        omega
+      rcases List.mem_cons.mp hz with e | e
+      · rw [e]; exact hxy
+      · have := (List.pairwise_cons.mp ihs).1 z e
+        omega
+
+/-- `windows(2)` finds no equal neighbours in the sorted keys: the group has pairwise different keys -/
+theorem distinctKeys_of_sorted_check (g : List MatrixData)
+    (h : adjacentEqual ((sortByKey g).map MatrixData.key) = false) : DistinctKeys g := by
+  have hstrict := strict_of_not_adjacentEqual (sortByKey g) (sortByKey_sorted g) h
+  have hne : (sortByKey g).Pairwise (fun a b => a.key ≠ b.key) := hstrict.imp (fun hab => by omega)
+  unfold DistinctKeys
+  exact (List.Perm.pairwise_iff (fun {a b} (hab : a.key ≠ b.key) => Ne.symm hab) (sortByKey_perm g)).mp hne
+
 /-- what `TimeAwareMatrixTransportCost::new` accepts -/
 theorem newAware_ok (ms : List MatrixData) (size : Nat) (pr : Provider) (h : newAware ms size = .ok pr) :
     pr = .aware size ms ∧ (∀ m ∈ ms, m.timestamp.isNone = false) ∧
-    ∀ m ∈ ms, ((groupOf ms m.index).length == 1) = false := by
+    (∀ m ∈ ms, ((groupOf ms m.index).length == 1) = false) ∧
+    ∀ m ∈ ms, DistinctKeys (groupOf ms m.index) := by
   unfold newAware at h
   split at h
   · cases h
@@ -39,15 +70,19 @@ theorem newAware_ok (ms : List MatrixData) (size : Nat) (pr : Provider) (h : new
     split at h
     · cases h
     · rename_i h2
-      cases h
-      exact ⟨rfl, not_any _ _ h1, not_any _ _ h2⟩
+      split at h
+      · cases h
+      · rename_i h3
+        cases h
+        exact ⟨rfl, not_any _ _ h1, not_any _ _ h2,
+          fun m hm => distinctKeys_of_sorted_check _ (not_any _ _ h3 m hm)⟩
 
 /-- an accepted set: non-empty, distances and durations of equal length, every length rounds to the common size,
     and either every matrix is timed (time-aware provider over the set) or none (time-agnostic provider) -/
 theorem build_ok (ms : List MatrixData) (pr : Provider) (h : build ms = .ok pr) :
     ms ≠ [] ∧
     (∀ m ∈ ms, m.distances.length = m.durations.length) ∧
-    (∀ m ∈ ms, sqrtRound m.durations.length = pr.size) ∧
+    (∀ m ∈ ms, m.durations.length = pr.size * pr.size) ∧
     (((∃ m ∈ ms, m.timestamp.isSome = true) ∧ newAware ms pr.size = .ok pr) ∨
      ((∀ m ∈ ms, m.timestamp.isSome = false) ∧ newAgnostic ms pr.size = .ok pr)) := by
   unfold build at h
@@ -69,20 +104,24 @@ theorem build_ok (ms : List MatrixData) (pr : Provider) (h : build ms = .ok pr) 
           have hdur := not_any _ _ h3
           have hlen' : ∀ m ∈ first :: rest, m.distances.length = m.durations.length := fun m hm => by
             simpa using hlen m hm
-          have hsz : ∀ m ∈ first :: rest, sqrtRound m.durations.length = sqrtRound first.durations.length :=
-            fun m hm => by simpa using hdur m hm
           split at h
-          · rename_i h4
-            have hpr := (newAware_ok _ _ _ h).1
-            have hsize : pr.size = sqrtRound first.durations.length := by rw [hpr]; rfl
-            refine ⟨by simp, hlen', fun m hm => by rw [hsize]; exact hsz m hm, Or.inl ⟨?_, by rw [hsize]; exact h⟩⟩
-            obtain ⟨m, hm, hp⟩ := List.any_eq_true.mp h4
-            exact ⟨m, hm, hp⟩
-          · rename_i h4
-            have hpr := (newAgnostic_ok _ _ _ h).1
-            have hsize : pr.size = sqrtRound first.durations.length := by rw [hpr]; rfl
-            exact ⟨by simp, hlen', fun m hm => by rw [hsize]; exact hsz m hm,
-              Or.inr ⟨not_any _ _ h4, by rw [hsize]; exact h⟩⟩
+          · cases h
+          · rename_i hsq
+            have hsz : ∀ m ∈ first :: rest,
+                m.durations.length = sqrtRound first.durations.length * sqrtRound first.durations.length :=
+              fun m hm => by simpa using not_any _ _ hsq m hm
+            split at h
+            · rename_i h4
+              have hpr := (newAware_ok _ _ _ h).1
+              have hsize : pr.size = sqrtRound first.durations.length := by rw [hpr]; rfl
+              refine ⟨by simp, hlen', fun m hm => by rw [hsize]; exact hsz m hm, Or.inl ⟨?_, by rw [hsize]; exact h⟩⟩
+              obtain ⟨m, hm, hp⟩ := List.any_eq_true.mp h4
+              exact ⟨m, hm, hp⟩
+            · rename_i h4
+              have hpr := (newAgnostic_ok _ _ _ h).1
+              have hsize : pr.size = sqrtRound first.durations.length := by rw [hpr]; rfl
+              exact ⟨by simp, hlen', fun m hm => by rw [hsize]; exact hsz m hm,
+                Or.inr ⟨not_any _ _ h4, by rw [hsize]; exact h⟩⟩
 
 /-- with `n × n` matrices the provider's size is `n` -/
 theorem build_size (ms : List MatrixData) (pr : Provider) (h : build ms = .ok pr) (n : Nat)
@@ -91,9 +130,17 @@ theorem build_size (ms : List MatrixData) (pr : Provider) (h : build ms = .ok pr
   cases ms with
   | nil => exact absurd rfl hne
   | cons m rest =>
-    have := hsz m List.mem_cons_self
-    rw [hsq m List.mem_cons_self, sqrtRound_sq] at this
-    exact this.symm
+    have h1 := hsz m List.mem_cons_self
+    rw [hsq m List.mem_cons_self] at h1
+    have h2 : Nat.sqrt (n * n) = Nat.sqrt (pr.size * pr.size) := by rw [h1]
+    rw [Nat.sqrt_eq, Nat.sqrt_eq] at h2
+    exact h2.symm
+
+/-- a matrix whose number of entries is not the square of the common size is rejected (0684041) -/
+theorem builder_rejects_non_square (ms : List MatrixData) (m : MatrixData) (hm : m ∈ ms)
+    (h : ∀ k, m.durations.length ≠ k * k) : ∀ pr, build ms ≠ .ok pr := by
+  intro pr hb
+  exact h pr.size ((build_ok ms pr hb).2.2.1 m hm)
 
 /-! ### each inconsistency class is rejected -/
 
@@ -110,11 +157,11 @@ theorem builder_rejects_size_mismatch (ms : List MatrixData) (a b : MatrixData) 
     (na nb : Nat) (hna : a.durations.length = na * na) (hnb : b.durations.length = nb * nb) (hne : na ≠ nb) :
     ∀ pr, build ms ≠ .ok pr := by
   intro pr h
+  have h1 := build_size ms pr h
   obtain ⟨_, _, hsz, _⟩ := build_ok ms pr h
-  have h1 := hsz a ha
-  have h2 := hsz b hb
-  rw [hna, sqrtRound_sq] at h1
-  rw [hnb, sqrtRound_sq] at h2
+  have e1 : Nat.sqrt (na * na) = Nat.sqrt (pr.size * pr.size) := by rw [← hna, hsz a ha]
+  have e2 : Nat.sqrt (nb * nb) = Nat.sqrt (pr.size * pr.size) := by rw [← hnb, hsz b hb]
+  rw [Nat.sqrt_eq, Nat.sqrt_eq] at e1 e2
   omega
 
 /-- timed and untimed matrices mixed -/
@@ -136,10 +183,53 @@ theorem builder_rejects_single_timed (ms : List MatrixData) (a : MatrixData) (ha
   intro pr h
   obtain ⟨_, _, _, hcase⟩ := build_ok ms pr h
   rcases hcase with ⟨_, haw⟩ | ⟨hall, _⟩
-  · have := (newAware_ok _ _ _ haw).2.2 a ha
+  · have := (newAware_ok _ _ _ haw).2.2.1 a ha
     have e : groupOf ms a.index = supplied ms a.index := rfl
     rw [e, hone] at this
     simp at this
+  · have := hall a ha
+    rw [hat] at this
+    cases this
+
+/-- under pairwise different keys a matrix is the only one of its group with its timestamp -/
+theorem filter_timestamp_singleton (g : List MatrixData) (hd : DistinctKeys g) (m : MatrixData) (hm : m ∈ g) :
+    (g.filter (fun x => x.timestamp == m.timestamp)).length = 1 := by
+  induction g with
+  | nil => simp at hm
+  | cons x g ih =>
+    have hd' : DistinctKeys g := (List.pairwise_cons.mp hd).2
+    have hhead := (List.pairwise_cons.mp hd).1
+    rw [List.filter_cons]
+    by_cases hx : (x.timestamp == m.timestamp) = true
+    · have hxk : x.key = m.key := by
+        unfold MatrixData.key
+        rw [show x.timestamp = m.timestamp by simpa using hx]
+      have hxm : x = m := hd.eq_of_key List.mem_cons_self hm hxk
+      have hnil : g.filter (fun y => y.timestamp == m.timestamp) = [] := by
+        rw [List.filter_eq_nil_iff]
+        intro y hy hyt
+        have hyk : y.key = x.key := by
+          unfold MatrixData.key
+          rw [show y.timestamp = m.timestamp by simpa using hyt, ← show x.timestamp = m.timestamp by simpa using hx]
+        exact hhead y hy hyk.symm
+      rw [if_pos hx, hnil]; rfl
+    · rw [if_neg hx]
+      rcases List.mem_cons.mp hm with e | e
+      · subst e; simp at hx
+      · exact ih hd' e
+
+/-- two matrices of one profile with the same timestamp (c805ac8) -/
+theorem builder_rejects_duplicate_timestamp (ms : List MatrixData) (a : MatrixData) (ha : a ∈ ms)
+    (hat : a.timestamp.isSome = true)
+    (hdup : ((supplied ms a.index).filter (fun x => x.timestamp == a.timestamp)).length ≠ 1) :
+    ∀ pr, build ms ≠ .ok pr := by
+  intro pr h
+  obtain ⟨_, _, _, hcase⟩ := build_ok ms pr h
+  rcases hcase with ⟨_, haw⟩ | ⟨hall, _⟩
+  · have hd := (newAware_ok _ _ _ haw).2.2.2 a ha
+    have hmem : a ∈ groupOf ms a.index := by
+      unfold groupOf; rw [List.mem_filter]; exact ⟨ha, by simp⟩
+    exact hdup (filter_timestamp_singleton _ hd a hmem)
   · have := hall a ha
     rw [hat] at this
     cases this
